@@ -30,7 +30,20 @@ Record case := Case {
   o_crate_join : string;   (* RelativePath::new(c_dir).join(c_url) *)
   o_crate_joinn : string;  (* RelativePath::new(c_dir).join_normalized(c_url) *)
   o_crate_rel : string;    (* RelativePath::new(c_dir).relative(c_url) *)
-  o_crate_norm : string    (* RelativePath::new(c_url).normalize() *)
+  o_crate_norm : string;   (* RelativePath::new(c_url).normalize() *)
+  (* the url as it is written: model::ref_url with refs_extension ".md" / "" *)
+  o_ref_md : string;       (* ref_url(o_to_rel, ".md") *)
+  o_ref_plain : string;    (* ref_url(o_to_rel, "") *)
+  o_ref_u_md : string;     (* ref_url(c_url, ".md") — arbitrary text *)
+  o_ref_u_plain : string;  (* ref_url(c_url, "") *)
+  o_strip_u : string;      (* strip_md(c_url) *)
+  o_rt_md : string;        (* from_rel(ref_url(to_rel(K,D), ".md"), D) *)
+  o_rt_plain : string;     (* from_rel(ref_url(to_rel(K,D), ""), D) *)
+  o_rewrite_md : string;   (* from_rel(ref_url(to_rel(o_from_rel,D), ".md"), D) *)
+  o_rewrite_plain : string;(* from_rel(ref_url(to_rel(o_from_rel,D), ""), D) *)
+  o_self_md : string;      (* from_rel(ref_url(to_rel(K,parent K), ".md"), parent K) *)
+  o_self_plain : string;   (* from_rel(ref_url(to_rel(K,parent K), ""), parent K) *)
+  o_path_key : string      (* Key::from_file_name(Key(c_key).to_path()) *)
 }.
 
 Definition seqb := String.eqb.
@@ -51,16 +64,33 @@ Definition run (c : case) : verdict :=
     flag 11 (seqb (join_normalized D U) (o_crate_joinn c)) ++
     flag 12 (seqb (relative D U) (o_crate_rel c)) ++
     flag 13 (seqb (normalize U) (o_crate_norm c)) ++
-    flag 14 (seqb (from_rel_link_url (to_rel_link_url K (o_parent c)) (o_parent c)) (o_self_rt c)) in
-  let dom1 := canonicalb K && canonical_dirb D && negb (ends_with MD K) in
+    flag 14 (seqb (from_rel_link_url (to_rel_link_url K (o_parent c)) (o_parent c)) (o_self_rt c)) ++
+    flag 15 (seqb (ref_url (o_to_rel c) MD) (o_ref_md c) && seqb (ref_url (o_to_rel c) "") (o_ref_plain c) &&
+             seqb (ref_url U MD) (o_ref_u_md c) && seqb (ref_url U "") (o_ref_u_plain c)) ++
+    flag 16 (seqb (strip_md U) (o_strip_u c)) ++
+    flag 17 (seqb (from_rel_link_url (o_ref_md c) D) (o_rt_md c) && seqb (from_rel_link_url (o_ref_plain c) D) (o_rt_plain c)) ++
+    flag 18 (let w := to_rel_link_url (o_from_rel c) D in
+             seqb (from_rel_link_url (ref_url w MD) D) (o_rewrite_md c) && seqb (from_rel_link_url (ref_url w "") D) (o_rewrite_plain c)) ++
+    flag 19 (let w := to_rel_link_url K (o_parent c) in
+             seqb (from_rel_link_url (ref_url w MD) (o_parent c)) (o_self_md c) &&
+             seqb (from_rel_link_url (ref_url w "") (o_parent c)) (o_self_plain c)) ++
+    flag 20 (seqb (key_from_file_name (to_path K)) (o_path_key c)) in
+  (* canonical key and directory: the domain of C15_roundtrip_written (every key, also one ending in `.md`) *)
+  let dom0 := canonicalb K && canonical_dirb D in
+  (* the url without any extension resolves back only when the key does not end in `.md` (C15_roundtrip) *)
+  let dom1 := dom0 && negb (ends_with MD K) in
   let K' := o_from_rel c in
   (* the domain of RelPathLaws.C15_rewrite: every directory text, every url text, resolved key not ending in `.md` *)
   let dom2 := negb (ends_with MD K') in
   let prop :=
-    (* 1: the link written for K from D resolves back to K *)
-    flag 1 (implb dom1 (seqb (o_rt c) K)) ++
-    (* 2: resolving then re-writing from the same directory names the same note *)
-    flag 2 (implb dom2 (seqb (o_rewrite c) K')) ++
+    (* 1: the link written for K from D (with either extension) resolves back to K; so does the bare url
+          when K does not end in `.md` *)
+    flag 1 (implb dom0 (seqb (o_rt_md c) K && seqb (o_rt_plain c) K) && implb dom1 (seqb (o_rt c) K)) ++
+    (* 2: resolving then re-writing from the same directory names the same note: C15_rewrite_written for
+          every directory and url text; the bare url on dom2 *)
+    flag 2 (seqb (o_rewrite_md c) K' && seqb (o_rewrite_plain c) K' && implb dom2 (seqb (o_rewrite c) K')) ++
     (* 3: a note's own directory: the link from parent(K) to K resolves to K *)
-    flag 3 (implb dom1 (seqb (o_self_rt c) K)) in
-  V corr prop [] (dom1 && negb (seqb K D) && negb (sempty D)).
+    flag 3 (implb (canonicalb K) (seqb (o_self_md c) K && seqb (o_self_plain c) K) && implb dom1 (seqb (o_self_rt c) K)) ++
+    (* 4: the file a key is written to is read back under that key (C15_file_name_of_path: every key) *)
+    flag 4 (seqb (o_path_key c) K) in
+  V corr prop [] (dom0 && negb (seqb K D) && negb (sempty D)).
